@@ -2,7 +2,7 @@
    Full-strength statement: C02_statement (Cluster/Statements.v). Proved so far: the theorems below; what is
    not yet proved is decided on every run by the lock-step co-simulation (model = implementation on every
    explored schedule) together with the monitors run on the implementation's own observations. *)
-From RaftV Require Import Cluster.Statements Proofs.RVSpec Proofs.AESpec Proofs.ElectSpec.
+From RaftV Require Import Cluster.Statements Proofs.RVSpec Proofs.AESpec Proofs.ElectSpec Proofs.Names.
 Open Scope N_scope.
 
 (* RequestVote, every voter state x every request *)
@@ -34,3 +34,11 @@ Theorem C02_single_voter_election_takes_a_new_term : forall now n,
   is_single (conf_of n) (n_id n) = true /\ n_term (l_election now n) = n_term n + 1.
 Proof. exact election_becomes_leader. Qed.
 Print Assumptions C02_single_voter_election_takes_a_new_term.
+
+(* C02, second clause, cluster level, every schedule (membership changes, crashes, restarts included): every request
+   ever sent names its sender - an AppendEntries or InstallSnapshot request names the node that sent it as leader,
+   a RequestVote request names its sender as candidate. *)
+Theorem C02_requests_name_their_sender : forall ids boot et ld ls c,
+  In c (w_calls (run (init_world ids boot et ld) ls)) -> named c.
+Proof. intros ids boot et ld ls. exact (requests_name_their_sender ids boot et ld ls). Qed.
+Print Assumptions C02_requests_name_their_sender.
